@@ -490,7 +490,10 @@ Definition eval_filter (L : lib) (f : lfilter) (v : val) : res val :=
   | FNewlineToBr => Ok (VStr true (lt_sub s_br (soft sv)))               (* string.py:82-89 *)
   | FStripNewlines => Ok (VStr true (lt_sub [] (soft sv)))               (* :248-255 *)
   | FUrlEncode =>                                                        (* :316-322 *)
-    if existsb is_surrogate (snd sv) then PyExc UnicodeError
+    (* quote_plus raises UnicodeEncodeError (a ValueError) on a lone surrogate;
+       Filter.evaluate / evaluate_async turn ValueError and ArithmeticError of a
+       filter function into LiquidTypeError (expressions.py:968-971, fix 8585e2b) *)
+    if existsb is_surrogate (snd sv) then LErr LiquidTypeError None
     else Ok (VStr true (quote_plus (snd sv)))
   | FUrlDecode =>                                                        (* :325-329 *)
     let s := plus_to_space (snd sv) in
